@@ -482,6 +482,50 @@ func rule046(r *core.Run) {
 			}
 		}
 	}
+	// precedence: start-after only where the continuation token is absent (the SDK's
+	// paginator sends both on every follow-up page; the token must win)
+	nSA := 0
+	for _, st := range r.P.FieldStores("gofakes3.ListBucketPage.Marker") {
+		if st.Parent() != pf {
+			continue
+		}
+		s := r.P.SliceOf(st.Val, core.SliceOpts{Depth: -1})
+		if !s.Has("const:start-after") {
+			continue
+		}
+		nSA++
+		tokenAbsent := false
+		for _, g := range core.GuardsOf(st) {
+			cd := core.CondOf(g.If.Cond)
+			// the tested value, looked through a store to a field just before the test
+			// (`_, page.HasMarker = query["…"]; page.HasMarker`)
+			tested := []ssa.Value{blockFieldLoad(cd.X)}
+			if cd.Y != nil {
+				tested = append(tested, blockFieldLoad(cd.Y))
+			}
+			gs := r.P.SliceOfMany(tested, core.SliceOpts{Depth: -1})
+			if !gs.Has("const:continuation-token") || gs.Has("const:start-after") {
+				continue
+			}
+			truth := g.Branch != cd.Neg
+			// the test is a presence test (map lookup ok / != "" / len > 0): absent = its false outcome;
+			// an emptiness test (== "") is absent on its true outcome
+			absentOn := false
+			if cd.Op == token.EQL {
+				if k, ok := core.ConstString(cd.Y); ok && k == "" {
+					absentOn = true
+				}
+				if k, ok := core.ConstInt(cd.Y); ok && k == 0 {
+					absentOn = true
+				}
+			}
+			if truth == absentOn {
+				tokenAbsent = true
+			}
+		}
+		r.Check(tokenAbsent, "R04.6", key(fname(r, pf), "start-after only without a token", sprintf("#%d", nSA)), pos(r, st), "start-after feeds the marker only where continuation-token is absent",
+			"start-after can set the marker although a continuation-token is present: a V2 walk that carries both (the SDK paginator does) restarts from start-after on every page — keys repeat and the walk never ends")
+	}
 	r.Check(len(srcs) == 3, "R04.6", key(fname(r, pf), "marker sources"), r.P.Pos(pf.Pos()), "marker, continuation-token and start-after feed page.Marker", sprintf("page.Marker is fed by %d of the 3 query parameters (marker, continuation-token, start-after)", len(srcs)))
 	if h := mustFunc(r, "gofakes3.(*GoFakeS3).listBucket"); h != nil {
 		ok := false
@@ -495,4 +539,30 @@ func rule046(r *core.Run) {
 		})
 		r.Check(ok, "R04.6", key(fname(r, h), "page passed to the backend"), r.P.Pos(h.Pos()), "the parsed page reaches ListBucket", "the page parsed from the query is not what the backend receives")
 	}
+}
+
+// blockFieldLoad resolves a load of a struct field to the value stored to that
+// same field (same base, same field) by the nearest preceding store in the
+// block, if no call lies between; otherwise v itself.
+func blockFieldLoad(v ssa.Value) ssa.Value {
+	ld, ok := v.(*ssa.UnOp)
+	if !ok || ld.Op != token.MUL {
+		return v
+	}
+	fa, ok := ld.X.(*ssa.FieldAddr)
+	if !ok {
+		return v
+	}
+	b := ld.Block()
+	for i := core.InstrIndex(ld) - 1; i >= 0; i-- {
+		switch x := b.Instrs[i].(type) {
+		case *ssa.Store:
+			if fa2, ok := x.Addr.(*ssa.FieldAddr); ok && fa2.X == fa.X && fa2.Field == fa.Field {
+				return x.Val
+			}
+		case ssa.CallInstruction:
+			return v
+		}
+	}
+	return v
 }
